@@ -173,7 +173,11 @@ Definition step_ready (c : scfg) (s : session) (l : pline) : stepres :=
          wrapped (the handshake itself is the transport's: Model/SmtpWire.v) and the state is GREET again; the
          envelope is NOT reset. In the code remoteDomain keeps its value too, but nothing reads it in GREET and the
          HELO / EHLO that must follow overwrites it: the model clears it, so that "GREET => no name" stays an
-         invariant and the client-side specification [entitled] can forget the name at the 220 *)
+         invariant and the client-side specification [entitled] can forget the name at the 220 (unobservable given
+         reset()'s GREET guard, repair 3e63a74: every path from GREET to the one read of remoteDomain, in dataHandler,
+         passes an accepted greeting).  Go's two conditions (EHLO offers: TLSEnabled && !ForceTLS && tlsConfig != nil
+         && tlsState == nil; STARTTLS accepted: TLSEnabled && tlsState == nil) coincide because tlsConfig is never nil
+         and ForceTLS sets tlsState in NewSession *)
       if negb (tls_enabled c) then Ok s (one 454) []
       else if tls s then Ok s (one 454) []
       else Ok {| st := GREET; from := from s; rcpts := rcpts s; helo := []; tls := true |} (one 220) []
